@@ -216,7 +216,6 @@ func extractSmtp() {
 	g.def("fromRegex", "Option String", optStr(fromRe), "source text of fromRegex")
 	g.def("argsRegex", "Option String", optStr(argsRe), "source text of the parseArgs expression")
 	g.def("sliceSites", "List String", strList(smtpSliceExprs(f)), "every index / slice expression of handler.go")
-	g.def("sessionMentionsContext", "Bool", map[bool]string{true: "true", false: "false"}[f != nil && strings.Contains(src(f), "context.")], "does handler.go mention a context (sessions must not read the cancellation)")
 	// manager.Deliver
 	mf := parse("pkg/message/manager.go")
 	dl := fn(mf, "StoreManager", "Deliver")
